@@ -49,3 +49,50 @@ func runLong(c *mon.Case) {
 		c.NonTrivial("long", fmt.Sprint(n, nA, nB, nC))
 	}
 }
+
+// many sub-check of C13: more distinct sequences than any default capacity (100, 128, 1024 ...), with duplicates of
+// the FIRST groups arriving after the last distinct sequence (an index or pointer into a slice that has been
+// re-allocated in between is stale by then).
+func runMany(c *mon.Case) {
+	r := c.R
+	nd := []int{101, 129, 150, 257, 1025}[c.Idx%5] + r.Intn(3)
+	L := r.Range(12, 24)
+	aligned := r.Bool()
+	seen := map[string]bool{}
+	var seqs []string
+	for len(seqs) < nd {
+		li := L
+		if !aligned {
+			li = r.Range(8, L)
+		}
+		q := r.Str(li, "ACGT")
+		if !seen[q] {
+			seen[q] = true
+			seqs = append(seqs, q)
+		}
+	}
+	// late duplicates of early sequences
+	for k := r.Range(5, 60); k > 0; k-- {
+		seqs = append(seqs, seqs[r.Intn(100)])
+	}
+	rows := make([]row, len(seqs))
+	for i := range rows {
+		rows[i] = row{Name: fmt.Sprintf("s%04d", i), Seq: seqs[i]}
+	}
+	c.Input(map[string]interface{}{"distinct": nd, "rows": len(rows), "aligned": aligned})
+	var sb align.SeqBag
+	var err error
+	if aligned {
+		sb, err = mkAlign(rows, align.NUCLEOTIDS)
+	} else {
+		sb, err = mkBag(rows, align.NUCLEOTIDS)
+	}
+	if err != nil {
+		c.Failf("harness:build", "%v", err)
+		return
+	}
+	if _, _, ok := checkDedup(c, sb, r.Bool(), "[many]"); ok {
+		c.Count("many:distinct>100")
+		c.NonTrivial("many", fmt.Sprint(nd, len(rows), aligned, c.Idx))
+	}
+}
